@@ -85,6 +85,11 @@ DIRECTED = {
              op(o="hstart", kind="flush"), IDLE] + [op(o="spawn", num=3), IDLE] * 22
           + [op(o="cancel", ids=[99]), op(o="cancel", ids=[104]), op(o="cancel", ids=[200]),
              op(o="get_ids", names=["start-group-34", "start-group-3"]), op(o="hstart", kind="gac"), DRAIN])),
+    # elements that cannot be unpacked (None, 0) are skipped by starmap / doublestarmap, the others still run
+    "void_elements": S(
+        {"cls": "TaskPool", "size": 2, "reqs": [{"kind": "starmap", "num": 3, "nc": 2, "void": 1}, {"kind": "doublestarmap", "num": 2, "nc": 1, "void": 0},
+                                                 {"kind": "starmap", "num": 1, "nc": 1, "void": 1}]},
+        op(o="spawn", t=0), IDLE, op(o="spawn", t=1), op(o="spawn", t=2), IDLE, DRAIN, op(o="hstart", kind="flush"), IDLE),
     # the empty string is a group name like any other (explicit, unique, queryable)
     "empty_group_name": S(
         {"cls": "TaskPool", "size": 2, "reqs": [{"kind": "apply", "num": 1, "gname": ""}, {"kind": "map", "num": 2, "nc": 1, "gname": ""},
